@@ -2,6 +2,7 @@ package main
 
 import (
 	"fmt"
+	"go/constant"
 	"go/token"
 	"go/types"
 	"os"
@@ -25,6 +26,7 @@ type Program struct {
 	Specs   *Specs
 	mutGlob map[*ssa.Global]bool
 	UnknownContracts []string
+	reSrc    map[string]string // package-level regexps initialised by regexp.MustCompile(<constant>): their patterns
 	plainErr map[string]bool // package-level errors initialised by errors.New (match only themselves)
 }
 
@@ -49,7 +51,7 @@ func LoadProgram(repo, specDir string) (*Program, error) {
 	}
 	prog, _ := ssautil.AllPackages(pkgs, ssa.InstantiateGenerics|ssa.GlobalDebug)
 	prog.Build()
-	p := &Program{Repo: repo, SSA: prog, Pkgs: map[string]*packages.Package{}, Funcs: map[string]*ssa.Function{}, mutGlob: map[*ssa.Global]bool{}, plainErr: map[string]bool{}}
+	p := &Program{Repo: repo, SSA: prog, Pkgs: map[string]*packages.Package{}, Funcs: map[string]*ssa.Function{}, mutGlob: map[*ssa.Global]bool{}, plainErr: map[string]bool{}, reSrc: map[string]string{}}
 	dirToPkg := map[string]string{}
 	packages.Visit(pkgs, nil, func(pk *packages.Package) {
 		p.Pkgs[pk.PkgPath] = pk
@@ -81,6 +83,11 @@ func LoadProgram(repo, specDir string) (*Program, error) {
 							if call, ok := st.Val.(*ssa.Call); ok {
 								if cf := call.Call.StaticCallee(); cf != nil && cf.RelString(nil) == "errors.New" {
 									p.plainErr[g.Pkg.Pkg.Path()+"."+g.Name()] = true
+								}
+								if cf := call.Call.StaticCallee(); cf != nil && cf.RelString(nil) == "regexp.MustCompile" && len(call.Call.Args) == 1 {
+									if k, ok := call.Call.Args[0].(*ssa.Const); ok && k.Value != nil && k.Value.Kind() == constant.String {
+										p.reSrc[g.Pkg.Pkg.Path()+"."+g.Name()] = constant.StringVal(k.Value)
+									}
 								}
 							}
 						}
